@@ -17,7 +17,7 @@ def _arr(a):
 
 
 def _table(df, drop=()):
-    if df is None or len(df.columns) == 0:
+    if df is None or len(df.columns) == 0 or len(df) == 0:
         return {"cols": [], "index": [], "data": {}}
     cols = sorted(c for c in df.columns if c not in drop)
     return {"cols": cols, "index": [int(i) for i in df.index], "data": {c: _arr(df[c].to_numpy()) for c in cols}}
